@@ -208,6 +208,10 @@ def run(ctx):
     from qv.engine import fn_expr_operand as _op, walk_expr as _wx, callee_path as _cp
     REPROCESS = {"split", "lines", "split_terminator", "replace", "replacen", "trim", "trim_end", "trim_start", "split_whitespace", "to_uppercase", "to_lowercase", "split_inclusive", "rsplit", "splitn"}
     writers_ = [f for f in db.fns if f.name == "write" and f.path.endswith("as quil_rs::quil::Quil>::write")]
+    # ... and the helpers they share (anything that takes the fall_back_to_debug flag, e.g. write_instruction_block)
+    from qv.props.c04 import flag_param as _flag_param
+
+    writers_ += [f for f in db.fns if f not in writers_ and f.kind in ("Fn", "AssocFn") and not f.is_derived() and _flag_param(f) is not None and f.name not in ("to_quil", "to_quil_or_debug")]
     nre = 0
     for w in writers_:
         for g in [w] + db.closures_of(w):
@@ -223,9 +227,9 @@ def run(ctx):
                 if not srcs:
                     continue
                 nre += 1
-                key = "K6|serialized-text-reprocessed|%s" % w.impl_self_path()
+                key = "K6|serialized-text-reprocessed|%s" % (w.impl_self_path() or w.path)
                 res.site(key, True, {"operation": c.get("name"), "on_result_of": sorted(set(srcs)), "verdict": "VIOLATION"})
-                res.find(key, g.loc(t.get("sp")), "the writer of %s re-processes the serialized text of a nested value with str::%s: a string literal inside it that contains the affected characters is changed" % (w.impl_self_path().replace("quil_rs::", ""), c.get("name")),
+                res.find(key, g.loc(t.get("sp")), "the writer of %s re-processes the serialized text of a nested value with str::%s: a string literal inside it that contains the affected characters is changed" % ((w.impl_self_path() or w.path).replace("quil_rs::", ""), c.get("name")),
                          "`DEFCIRCUIT FOO:\n    PRAGMA note \"a<newline>b\"`: the line break inside the string comes back followed by four spaces")
     res.site("K6|serialized-text-reprocessed", True, {"writers": len(writers_), "reprocessing_sites": nre})
     # K7 the end of a quoted string is found with escape-parity tracking: whether a quote is escaped depends on the parity of
